@@ -110,7 +110,7 @@ class SeismicFileConverter(object):
         if header_detection != 'strip':
             for header_array in header_info.headers_dict.values():
                 # Pad to 512-bytes for page blobs
-                out_filehandle.write(header_array.tobytes() + bytes(512-len(header_array.tobytes()) % 512))
+                out_filehandle.write(header_array.tobytes() + bytes(-len(header_array.tobytes()) % 512))
 
     @staticmethod
     def write_hash(hash, out_filehandle):
@@ -441,7 +441,7 @@ class NumpyConverter(object):
     def write_headers(header_info, out_filehandle):
         for header_array in header_info.headers_dict.values():
             # Pad to 512-bytes for page blobs
-            out_filehandle.write(header_array.tobytes() + bytes(512-len(header_array.tobytes()) % 512))
+            out_filehandle.write(header_array.tobytes() + bytes(-len(header_array.tobytes()) % 512))
 
     @staticmethod
     def write_hash(hash, out_filehandle):
